@@ -5,6 +5,7 @@ import (
 	"math"
 
 	"github.com/golang/geo/r3"
+	"github.com/golang/geo/s1"
 	"github.com/golang/geo/s2"
 	"pgregory.net/rapid"
 
@@ -27,8 +28,11 @@ type subCase struct {
 }
 
 func genSubCase(t *rapid.T) subCase {
-	if rapid.IntRange(0, 8).Draw(t, "fam") >= 6 {
+	switch f := rapid.IntRange(0, 9).Draw(t, "fam"); {
+	case f >= 7:
 		return genLuneSub(t)
+	case f == 6:
+		return genHalfTurnSub(t)
 	}
 	cs := drawCircle(t, "ci", 40)
 	c := cs.C.Pt()
@@ -160,6 +164,55 @@ func genLuneSub(t *rapid.T) subCase {
 	default:
 		sc.B = []gen.P{l.V[0], l.V[2], l.Inside} // a, b, interior point (left of a→b)
 		sc.Mode = "triangle"
+	}
+	return sc
+}
+
+// genHalfTurnSub: A is a convex quad p1, p0, p2, p3 that does not contain the
+// pole but spans a few ulps less than 180 degrees of longitude: p1 and p2 lie
+// on one parallel, k ulps short of half a turn apart, p0 between them on a
+// lower parallel, p3 between the pole and the place where the chord p2-p1 passes
+// the pole. No edge of A spans the near-half-turn range, but the edge p2-p1 of
+// the triangle B = p1, p0, p2 does: B's longitude bound may be widened to full
+// by the bounder, and the sub-region expansion of A has to follow.
+func genHalfTurnSub(t *rapid.T) subCase {
+	south := rapid.Bool().Draw(t, "south")
+	lat := rapid.SampledFrom([]float64{1e-3, 0.05, 0.3, 1, 1.4}).Draw(t, "lat")
+	k := float64(rapid.IntRange(0, 12).Draw(t, "k"))
+	if rapid.IntRange(0, 3).Draw(t, "kbig") == 0 {
+		k = math.Exp(rapid.Float64Range(0, math.Log(1e6)).Draw(t, "kl"))
+	}
+	alpha := 0.0
+	if rapid.Bool().Draw(t, "rot") {
+		alpha = rapid.Float64Range(-math.Pi, math.Pi).Draw(t, "alpha")
+	}
+	eta := k * 0x1p-52
+	ll := func(la, lo float64) s2.Point {
+		if south {
+			la = -la
+		}
+		return s2.PointFromLatLng(s2.LatLng{Lat: s1.Angle(la), Lng: s1.Angle(math.Remainder(lo+alpha, 2*math.Pi))})
+	}
+	p1 := ll(lat, -math.Pi/2)
+	p2 := ll(lat, math.Pi/2-eta)
+	p0 := ll(lat-rapid.SampledFrom([]float64{1e-3, 0.1, 0.5}).Draw(t, "dlat"), rapid.Float64Range(-0.5, 0.5).Draw(t, "lng0"))
+	// the chord p2-p1 passes the pole at colatitude ~ tan(colat)*sin(eta/2)
+	pass := math.Tan(math.Pi/2-lat) * math.Sin(eta/2)
+	c3 := pass * rapid.Float64Range(0.05, 0.95).Draw(t, "c3")
+	if pass == 0 || rapid.IntRange(0, 4).Draw(t, "far3") == 0 {
+		c3 = rapid.SampledFrom([]float64{1e-15, 1e-12, 1e-6}).Draw(t, "c3abs")
+	}
+	p3 := ll(math.Pi/2-c3, 0)
+	v := []s2.Point{p1, p0, p2, p3}
+	if south {
+		v = []s2.Point{p3, p2, p0, p1}
+	}
+	inside := gen.Fix(s2.Point{Vector: p1.Add(p2.Vector).Add(p0.Vector).Normalize()}, p0)
+	sc := subCase{C: gen.FromPt(inside), A: gen.FromPts(v), Mode: "subset", Fam: "halfturn"}
+	if south {
+		sc.B = gen.FromPts([]s2.Point{p2, p0, p1})
+	} else {
+		sc.B = gen.FromPts([]s2.Point{p1, p0, p2})
 	}
 	return sc
 }
@@ -778,7 +831,7 @@ func checkHull(c hullCase) (o ev.Outcome) {
 
 func init() {
 	ev.Define("subregion_bound", ev.Options{
-		Rule:  "A = exactly convex loop (vertices on a small circle, optionally grazing a pole within 0..0.02 rad with a vertex or an edge midpoint towards the pole, clustered vertices; or a convex lune-shaped quad whose diagonal joins points 2e-16..0.1 rad from antipodal); B inside A by construction and verified exactly (subset of A's vertices; vertices on the rays from an interior point to A's vertices at scale 1-1e-15..0.5; triangles on the nearly antipodal diagonal; A itself rotated). A containing a pole is excluded as documented (classified, not asserted). Assert ExpandForSubregions(A.RectBound()).Contains(B.RectBound()) and then A.Contains(B). Non-trivial = the expansion was needed (A's own bound does not contain B's) or it switched to full / full longitude.",
+		Rule:  "A = exactly convex loop (vertices on a small circle, optionally grazing a pole within 0..0.02 rad with a vertex or an edge midpoint towards the pole, clustered vertices; or a convex lune-shaped quad whose diagonal joins points 2e-16..0.1 rad from antipodal; or a convex quad that leaves the pole out but spans 0..12 ulps (1 in 4: up to 1e6 ulps) less than 180 degrees of longitude without any edge of its own spanning that range, B being the triangle whose edge does); B inside A by construction and verified exactly (subset of A's vertices; vertices on the rays from an interior point to A's vertices at scale 1-1e-15..0.5; triangles on the nearly antipodal diagonal; A itself rotated). A containing a pole is excluded as documented (classified, not asserted). Assert ExpandForSubregions(A.RectBound()).Contains(B.RectBound()) and then A.Contains(B). Non-trivial = the expansion was needed (A's own bound does not contain B's) or it switched to full / full longitude.",
 		Quick: 40000, Thorough: 1000000}, genSubCase, checkSubregion)
 	ev.Define("convex_hull", ev.Options{
 		Rule:  "1..3 inputs (point sets: degenerate relatives, exactly coplanar tuples, points on a circle plus centre and chord points, cell-vertex grids, 1-2 points, random discs with chord points; polylines; star loops; polygons with holes) within a spread of 1e-7..1.5 rad or within 0..0.05 of a hemisphere. Hull must be a valid loop, every consecutive triple exactly counter-clockwise and no vertex right of any edge; every input point is a hull vertex, or (exact half-space test) on the inner side of every edge and hull.ContainsPoint; hull vertices are input points; a second call gives the same loop; hull.Contains(each input loop). Non-trivial = a proper hull (>= 3 distinct inputs, not full) with an input point that is not a vertex but within 1e-13 of an edge plane.",
